@@ -1,0 +1,114 @@
+//! Observation hooks for external verification tooling.
+//!
+//! Compiled only with the cargo feature `verif-hooks`; the default build does not contain this module.
+//! Events are recorded per thread between `begin()` and `take()`.
+use crate::code::remover::RemoveMarker;
+use crate::parser::ContentPart;
+use crate::tokenizer::{Token, TokenKind};
+use std::cell::RefCell;
+use std::ops::Range;
+
+#[derive(Debug, Clone, PartialEq)]
+pub struct Event {
+    pub stage: &'static str,
+    pub rows: Vec<Vec<i64>>,
+    pub text: Option<String>,
+}
+
+thread_local! {
+    static LOG: RefCell<Option<Vec<Event>>> = const { RefCell::new(None) };
+}
+
+/// Start recording on this thread (drops anything recorded before).
+pub fn begin() {
+    LOG.with(|l| *l.borrow_mut() = Some(vec![]));
+}
+
+/// Stop recording and return the events recorded since `begin()`.
+pub fn take() -> Vec<Event> {
+    LOG.with(|l| l.borrow_mut().take().unwrap_or_default())
+}
+
+pub fn emit(stage: &'static str, rows: Vec<Vec<i64>>, text: Option<String>) {
+    LOG.with(|l| {
+        if let Some(v) = l.borrow_mut().as_mut() {
+            v.push(Event { stage, rows, text });
+        }
+    });
+}
+
+/// One row per token: [is_element, start, end, byte_start, byte_end, value_len_bytes].
+pub fn token_rows(tokens: &[Token]) -> Vec<Vec<i64>> {
+    tokens
+        .iter()
+        .map(|t| {
+            vec![
+                matches!(t.kind, TokenKind::Element(_)) as i64,
+                t.start as i64,
+                t.end as i64,
+                t.byte_start as i64,
+                t.byte_end as i64,
+                t.value.len() as i64,
+            ]
+        })
+        .collect()
+}
+
+/// Pre-order rows of the content tree: [is_element, depth, first token byte_start, closing token byte_start or -1].
+pub fn tree_rows(parts: &[ContentPart]) -> Vec<Vec<i64>> {
+    fn walk(parts: &[ContentPart], depth: i64, rows: &mut Vec<Vec<i64>>) {
+        for p in parts {
+            match p {
+                ContentPart::Text(t) => rows.push(vec![0, depth, t.token.byte_start as i64, -1]),
+                ContentPart::Element(el) => {
+                    rows.push(vec![
+                        1,
+                        depth,
+                        el.start_token.byte_start as i64,
+                        el.end_token.byte_start as i64,
+                    ]);
+                    walk(&el.children, depth + 1, rows);
+                }
+            }
+        }
+    }
+    let mut rows = vec![];
+    walk(parts, 0, &mut rows);
+    rows
+}
+
+/// One row per marker: [start, end, pair index or -1].
+pub fn marker_rows(markers: &[RemoveMarker]) -> Vec<Vec<i64>> {
+    markers
+        .iter()
+        .map(|(r, p)| {
+            vec![
+                r.start as i64,
+                r.end as i64,
+                p.map(|v| v as i64).unwrap_or(-1),
+            ]
+        })
+        .collect()
+}
+
+/// One row per marker: [start, end, pair index or -1, is_ready].
+pub fn marker_all_rows(markers: &[(RemoveMarker, bool)]) -> Vec<Vec<i64>> {
+    markers
+        .iter()
+        .map(|((r, p), ready)| {
+            vec![
+                r.start as i64,
+                r.end as i64,
+                p.map(|v| v as i64).unwrap_or(-1),
+                *ready as i64,
+            ]
+        })
+        .collect()
+}
+
+pub fn range_rows(ranges: &[Range<usize>]) -> Vec<Vec<i64>> {
+    ranges
+        .iter()
+        .map(|r| vec![r.start as i64, r.end as i64])
+        .collect()
+}
